@@ -261,7 +261,7 @@ impl Prop for C14 {
         24
     }
     fn cases(&self, t: Tier) -> usize {
-        t.pick(60_000, 5_000_000)
+        t.pick(1_000_000, 100_000_000)
     }
     fn rule(&self) -> String {
         "tape-decoded (operation, source shape with axes 1..6 (thorough 1..12), target = a factorisation of the element count or a shape with a different count, contents class incl. signed zeros/subnormals/f32::MAX, chains of up to 5 reshapes optionally via a vector). Oracle: explicit row-major index arithmetic c*H*W+h*W+w, bitwise. Non-trivial: >= 2 axes > 1 and height != width. Distinct = (operation, source shape, target shape).".into()
